@@ -10,13 +10,13 @@ P = {
  "C01": ("E: fold of Variance.add/Mean.add = (n, mean, sum (x-mean)^2) for every list; accessors = textbook variances; permutation invariance. R0: sum_2 >= 0 under any monotone rounding. R2: forward-error bound of the running mean (10.1 n u M) for every stream length.",
          "The forward-error envelope is proved for mean() only; for the variance family it is measured against the exact rational oracle (DESIGN 5), not proved. R-carrier theorems assume IEEE rounding is monotone / has relative error <= 2^-53 and no overflow. Correspondence Model[Float]=impl is checked on sampled operations, not proved."),
  "C02": ("E: (canon xs).merge (canon ys) = canon (xs++ys) for Mean..Kurtosis and define_moments! of every order; hence every binary merge tree over every chunking (empty and one-element chunks included) evaluates to canon of the concatenation; total length exact.",
-         "Envelope through merges measured against the exact oracle, not proved. Correspondence checked on enumerated/sampled trees."),
+         "R2 (C02b): the forward-error bound of mean() is proved through every merge tree (11 n u M). For the variance family and higher moments the envelope through merges is measured against the exact oracle, not proved. Correspondence checked on enumerated/sampled trees."),
  "C03": ("E/Real: Skewness/Kurtosis folds = canon (n, mean, S2, S3, S4); skewness() = m3/m2^1.5, kurtosis() = m4/m2^2-3 for non-zero spread; re-exported accessors = C01's.",
          "Envelope measured, not proved; sqrt modelled as Real.sqrt."),
  "C04": ("E: define_moments! add and merge of arbitrary order N preserve canon (binomial shift lemma, IterBinomial exact); central_moment(p) = m_p, standardized_moment(p) = m_p/sigma^p for all p <= N; agreement with Mean..Kurtosis as a corollary.",
          "Envelope measured. u64 modelled as Nat (IterBinomial overflows only for N >= 62; counts < 2^53)."),
  "C05": ("O+order: under sorted marker heights, Quantile.add = the P-square step of the paper (cell search and position increments equal the order-free specification; marker 0 never moves), any carrier arithmetic; invariant n0 = 1, n4 = count.",
-         "Sortedness of the heights under IEEE rounding is monitored on every implementation trace (C15), not proved; B.3 formulas are the same arithmetic in model and spec by the property's own wording."),
+         "C05b: sortedness of the heights and model run = P-square run are also proved under rounded arithmetic (monotone idempotent rounding, relative error <= 1/4, exact small-integer casts, representable observations, no overflow); B.3 formulas are the same arithmetic in model and spec by the property's own wording. Overflow of the marker arithmetic is outside the theorems (see the C15 known finding)."),
  "C06": ("O+order: libcore's binary search contract (last equal index / partition point) on sorted edges; find = the unique half-open bin; NaN sample = out of range; add increments exactly that bin; totals = number of accepted adds.",
          "libcore binary_search_by is transcribed (rustc 1.96) and pinned by exhaustive differential runs, not verified from source."),
  "C07": ("E+floor: for 1..4 observations quantile() = exact sample quantile of the sorted sample; permutation invariant; p=0 min, p=1 max.",
@@ -30,17 +30,17 @@ P = {
  "C11": ("O (any carrier): merge a new = a and merge new a = a as structure equalities for every state a of every Merge type; len(merge a b) = len a + len b; is_empty iff len = 0; merge returns a new value and cannot modify its argument.",
          "WeightedMeanWithError / Min / Max need x+0=x resp. min(x,inf)=x: true of IEEE away from -0.0 / NaN, stated as hypotheses."),
  "C12": ("O+order: from_ranges accepts exactly the lists whose first LEN+1 values exist, are not NaN and are non-decreasing, with the error of the first offending position; edges returned unchanged, counts zero. R0: with_const_width edges are non-decreasing and edge 0 = start under any monotone rounding.",
-         "Closeness of with_const_width edges (8u) is checked by the exact oracle, not proved."),
+         "C12b: closeness of with_const_width edges is proved in the standard model of rounding (8u max(|start|,|end|) for u <= 1/16; sharp polynomial bound for every u) and checked by the exact oracle. IEEE rounding properties are assumed."),
  "C13": ("O: merge = += = bin-wise sum for equal edges (commutative, associative, = histogram of concatenated samples); panic and no change for different edges; *=, reset, iter, widths, centers, normalized_bins; variance(i) = variances()[i].",
          "u64 overflow outside the model (Nat)."),
  "C14": ("O+order: Min/Max over any add/merge/from_value history = fold of min/max over the non-NaN observations; permutation, chunking and merge-order invariance.",
          "f64::min/max modelled (NaN-ignoring); zero signs compared as numbers."),
  "C15": ("E: len = count, is_empty, p() read-back, min <= quantile <= max in the small-sample branch (convex combination of stored observations); new panics outside [0,1]; invariant heights sorted with exact extremes preserved by the exact-arithmetic step.",
-         "Sortedness under IEEE rounding is monitored on implementation traces, not proved."),
+         "C15b: range and well-formedness are also proved under rounded arithmetic (no overflow). One known finding (KNOWN_FINDINGS.txt key=spread-overflow): when max-min exceeds f64::MAX the marker arithmetic overflows; the check reports it as KNOWN-FINDING and any other violation as VIOLATION."),
  "C16": ("O: the sentinel table (type x accessor x n in 0..4) by unfolding for any carrier; constant streams: mean = x and every higher sum = 0 under the carrier laws x-x=0, 0/n=0, a+0=a, 0*a=0.",
          "The carrier laws hold for IEEE on finite values up to the sign of zero (assumed)."),
  "C17": ("R0: sum_2 >= 0 after any add/merge history for Variance, Skewness, Kurtosis, Covariance, WeightedMeanWithError, Moments N under any monotone rounding, no restriction on conditioning; E: mean and weighted mean are convex combinations; 1 <= effective_len <= n; bin variance in [0, N/4].",
-         "IEEE rounding assumed monotone with fl 0 = 0, no overflow; range of mean under rounding through merges measured."),
+         "IEEE rounding assumed monotone with fl 0 = 0 (R0) resp. relative error <= 2^-53 (R2), no overflow. C17b: mean within [min,max] +- 11 n u M is proved for every merge tree (Mean, Variance, Skewness, Kurtosis, Covariance); for define_moments!/weighted means the rounded range is measured; effective_len and bin-variance bounds are exact-arithmetic theorems plus measured slack."),
  "C18": ("O: decode (encode s) = some s for every estimator type, hence any continuation run on the restored state equals the run on the original; encode is a pure function of the state.",
          "serde derive and serde_json (float_roundtrip) are external and trusted; the harness compares the JSON tree actually produced with encode, and restored states bit for bit."),
  "C19": ("E/O: the merge-tree theorems of C02/C04/C14 cover every order-preserving fold/reduce tree with identity leaves: len exact, min/max exact, statistics = canon of the input.",
